@@ -25,7 +25,8 @@ WITH_EXT = ["a.txt", "b.txt", "c.log", "d.tar.gz", "X.TXT", "notes.md", "img.png
 DOTFILES = [".hidden", ".cfg", ".a.txt", "..dots", ".d"]
 SPACES = ["sp ace", "two  sp", " lead", "trail ", "a b.txt"]
 UNICODE = ["été", "Жук", "日本", "\U0001F600x", "αβ.txt", "naïve.md"]
-REGEX_META = ["a+b", "c(1)", "d[2]", "e{3}", "f|g", "^h", "i$", "j-k", "l,m", "n#o", "p~q", "r.s+t"]
+REGEX_META = ["a+b", "c(1)", "d[2]", "e{3}", "f|g", "^h", "i$", "j-k", "l,m", "n#o", "p~q", "r.s+t",
+              "a\\b", "\\lead", "trail\\", "d[2]x", "D[2]"]
 MARKUP = ["<b>", "a&b", "q\"q", "s'q", "x<y>z.txt"]
 CONTROL = ["tab\tx", "nl\ny", "cr\rz"]
 
@@ -254,8 +255,10 @@ ATTR_MTIMES = [1577836800 - 1, 1577836800, 1577836800 + 1, 1577836800 + 43200, 1
 ATTR_FILE_NAMES = ["a", "b.txt", "c.txt", "d.log", "e.LOG", "f.tar.gz", "README", "main.rs", "lib.rs", "x.bin",
                    "size", "name", "mode", "bin", ".hid", ".cfg.toml", "UP.TXT", "n10", "n9", "n100", "zz.md",
                    "k.c", "k.h", "long-file-name.txt", "s p.txt", "0", "1", "true", "é.txt", "Émile", "日本.md", "ź", "ß.c",
-                   "Name", "Size", "x.Extension", "Mode"]
-ATTR_DIR_NAMES = ["src", "doc", "a", "b", "t1", "t2", "lib", "x.d", "bin", "size", ".git2", "Zed"]
+                   "Name", "Size", "x.Extension", "Mode",
+                   # characters that mean something to a pattern engine but nothing to `=`: exact, case-sensitive
+                   "data[1].txt", "Data[1].txt", "q(1)+.c", "Q(1)+.c", "w{2}.h", "back\\slash", "c^d$.e", "p|q.r"]
+ATTR_DIR_NAMES = ["src", "doc", "a", "b", "t1", "t2", "lib", "x.d", "bin", "size", ".git2", "Zed", "d[0]", "back\\dir"]
 
 
 def _content_for(size, nlines):
